@@ -847,6 +847,13 @@ def shrink(R, case, kind, key, model=True):
 
     def fails(c):
         try:
+            if model:      # candidates must stay inside the modelled domain
+                ex = Exec(c['mode'], c['coords'], c['pool'])
+                for op in c['ops']:
+                    ex.check_refs(op)
+                    if not ex.in_model_domain(op):
+                        return None
+                    ex.step(op, [])
             fl = evaluate(Quiet(), [c], 'shrink', model=model, count=False)
         except Unknown:
             return None
